@@ -42,6 +42,16 @@ RULE = ("keys: every (section, key) of the generated table, online_filter / "
         "of ndim 0-2) plus random ones; routes: assignment/update/constructor,"
         " configuration file line (values with = : [ ] # quotes blanks), "
         "save+load, store_metadata+parse_config, re-assignment. "
+        "Audit round: non-dyadic/extreme floats, huge ints and exotic "
+        "numpy scalars (oracle only); upper/mixed-case SECTION names on "
+        "every Configuration route; reads/pop/del/setdefault/in with "
+        "non-lower-case keys, ConfigurationDict(section, data), "
+        "update(**kw); Configuration-level cases (item/update/constructor, "
+        "KeyError for unknown sections); whole hand-written files (several "
+        "sections, repeated keys, comments, entry before a header); "
+        "attributes written with h5py directly; carry chain extended by a "
+        "second store_metadata (append), filtered/child/dict export, "
+        "condense and tdms2rtdc (fixtures of /repo/tests/data). "
         "Further routes: as_dict/tojson (normal form), copy and "
         "update(Configuration), several assignments to one section observed "
         "through items()/tostring() (ordering), and 12 (thorough 40) random "
@@ -50,7 +60,7 @@ RULE = ("keys: every (section, key) of the generated table, online_filter / "
         "new_dataset -> hierarchy child -> export.hdf5 -> compress -> repack "
         "-> join(2) -> split, every entry compared after every hop. "
         "Quick tier: for the assignment route the full list of values for "
-        "one key of every (section, converter) class and 30+6 sampled values "
+        "one key of every (section, converter) class and 15+4 sampled values "
         "for every other key, random samples of the product for the other "
         "routes; thorough tier: the full product. A case is "
         "non-trivial when the key is valid and the value is neither '' nor "
@@ -67,12 +77,17 @@ TRUSTED_BASE = [
     "decimal literals that are multiples of 1/8, |x| < 1e16; everything else "
     "is reported by the model as 'unmodelled' and only the oracle is "
     "evaluated for it",
-    "binary64 rounding is not modelled: int(float(n)) = n is assumed "
-    "(|n| < 2**53), '%.12f' text of a float is exact for multiples of 1/8",
+    "binary64 rounding is not modelled: '%.12f' text of a float is exact "
+    "for multiples of 1/8",
 ]
 ASSUMPTIONS = [
     "keys are str (non-str keys are outside the quantifier)",
-    "integers satisfy |n| < 2**53 (fint goes through float)",
+    "the model's floats are multiples of 1/8 below 1e16; other floats, "
+    "integers beyond 2**53 and exotic numpy scalars are judged by the "
+    "oracle only (model: unmodelled)",
+    "Configuration.save/load: floats are compared within 5e-13 (text "
+    "precision of '%.12f'); exact round trips are asserted only for text "
+    "the .cfg syntax can carry (outside the property's storage sentence)",
     "configuration file text contains no '#', newline or tab (the file "
     "syntax gives them another meaning)",
     "setup:software version (branded by the writer), experiment:event count, "
@@ -91,7 +106,7 @@ HEADER = ("From Coq Require Import ZArith List Bool.\nImport ListNotations.\n"
           "From Verif Require Import Model.C11 Gen.MetaTable.\n")
 
 CONVS = ["str", "float", "fint", "fbool", "fboolorfloat", "fintlist",
-         "f1dfloatduple", "f2dfloatarray", "lcstr"]
+         "f1dfloatduple", "f2dfloatarray", "lcstr", "fnumber"]
 
 ERR = {"ValueError": 1, "TypeError": 2, "OverflowError": 3,
        "AttributeError": 4, "KeyError": 5}
@@ -122,9 +137,35 @@ def fl_py(m):
     return m / 8.0
 
 
+XNP = {"int32": "int32", "uint8": "uint8", "uint64": "uint64",
+       "int16": "int16", "float16": "float16", "str_": "str_",
+       "bytes_": "bytes_"}
+
+
+def model_ok(v):
+    """False for value kinds the Coq model cannot express (floats that are
+    not multiples of 1/8, huge integers, exotic numpy scalars): only the
+    oracle is evaluated for them"""
+    if v[0] in ("xfloat", "xint", "xnp"):
+        return False
+    if v[0] in ("list", "tuple"):
+        return all(model_ok(x) for x in v[1])
+    if v[0] in ("list2", "tuple2"):
+        return all(model_ok(x) for row in v[1] for x in row)
+    return True
+
+
 def build_scalar(s):
     import numpy as np
     t = s[0]
+    if t == "xfloat":
+        return float(s[1])
+    if t == "xint":
+        return int(s[1])
+    if t == "xnp":
+        return getattr(np, XNP[s[1]])(
+            s[2].encode() if s[1] == "bytes_" else
+            (s[2] if s[1] == "str_" else float(s[2])))
     if t == "none":
         return None
     if t == "str":
@@ -316,6 +357,30 @@ def e_value(x):
     return [10] + e
 
 
+def norm_flat(flat, kind):
+    """What the property speaks about: whether an assignment raises, warns
+    or stores, and the stored value -- not the class of the exception, which
+    warnings and how many, nor the dtype of an array (documented type:
+    ndarray)"""
+    if not flat:
+        return flat
+    if flat[0] == 2:
+        return [2]
+    out = list(flat)
+    if kind in ("obs", "items") and out[0] == 1 and len(out) >= 2:
+        nw = out[1]
+        out = [1, int(nw > 0)] + out[2 + nw:]
+        vstart = 3 if kind == "obs" else None
+    elif kind == "res" and out[0] == 1:
+        vstart = 1
+    else:
+        vstart = None
+    if vstart is not None and len(out) > vstart + 1 and \
+            out[vstart] in (13, 14, 15):
+        out[vstart + 1] = 0
+    return out
+
+
 def e_exc(e):
     return [2, ERR.get(type(e).__name__, 9)]
 
@@ -445,7 +510,7 @@ def obs_equal(a, b):
         return False
     if a[0] == "exc":
         return type(a[1]) is type(b[1])
-    if a[2] != b[2]:
+    if bool(a[2]) != bool(b[2]):
         return False
     if a[1] is ABSENT or b[1] is ABSENT:
         return a[1] is b[1]
@@ -454,7 +519,7 @@ def obs_equal(a, b):
 
 def section_known(sec):
     from dclab import definitions as dfn
-    return sec in dfn.config_keys or sec == "user"
+    return sec.lower() in dfn.config_keys or sec.lower() == "user"
 
 
 def impl_route0(case, val):
@@ -469,10 +534,10 @@ def impl_route0(case, val):
     ref = obs[hows[0]]
     for h in hows[1:]:
         o = obs[h]
-        if h == "ctor" and sec == "filtering" and o[0] == "ok" \
+        if h == "ctor" and sec.lower() == "filtering" and o[0] == "ok" \
                 and ref[0] == "ok" and ref[1] is ABSENT:
             # the constructor keeps the default value of a rejected entry
-            if o[2] != ref[2]:
+            if bool(o[2]) != bool(ref[2]):
                 fails.append(("routes", "constructor warns %s, %s warns %s"
                               % (o[2], hows[0], ref[2])))
             continue
@@ -485,7 +550,7 @@ def impl_route0(case, val):
         from dclab.rtdc_dataset.config import verify_section_key
         with warnings.catch_warnings():
             warnings.simplefilter("ignore")
-            valid_key = verify_section_key(sec, lk)
+            valid_key = verify_section_key(sec.lower(), lk)
     except Exception:
         valid_key = None
     is_empty = isinstance(val, (str, bytes)) and len(val) == 0
@@ -504,20 +569,11 @@ def impl_route0(case, val):
             fails.append(("store", "valid key and value, nothing stored "
                           "(warnings %s)" % ref[2]))
         else:
-            typ = dfn.get_config_value_type(sec, lk)
+            typ = dfn.get_config_value_type(sec.lower(), lk)
             if typ is not None and not isinstance(stored, typ):
-                if has_converter(sec, lk):
-                    fails.append(("type", "stored %s of type %s, documented "
-                                  "%s" % (short(stored),
-                                          type(stored).__name__, typ)))
-                elif not same_type_equal(
-                        stored, val.decode("utf-8") if isinstance(val, bytes)
-                        else val) or not ref[3]:
-                    # keys without a converter (min/max ranges): the value
-                    # is kept as it is and the wrong type is reported
-                    fails.append(("type", "key without converter: stored %s "
-                                  "for %s, type warning: %s" % (
-                                      short(stored), short(val), ref[3])))
+                fails.append(("type", "stored %s of type %s, documented "
+                              "%s" % (short(stored),
+                                      type(stored).__name__, typ)))
             # idempotence of the assignment
             o2 = _assign(sec, key, stored, hows[0])
             if o2[0] != "ok" or o2[1] is ABSENT or \
@@ -532,7 +588,76 @@ def impl_route0(case, val):
                 if not obs_equal(ref, o3):
                     fails.append(("case", "key %r gives %s, key %r gives %s" %
                                   (key, short(ref[1:]), k2, short(o3[1:]))))
+            # ... of the section name, on every route
+            for s2 in (sec.upper(), sec.title()):
+                if s2 == sec or not case.get("deep"):
+                    continue
+                for h in hows:
+                    o4 = _assign(s2, key, val, h)
+                    if h == "ctor" and sec.lower() == "filtering":
+                        continue
+                    if not obs_equal(ref, o4):
+                        fails.append(("case", "section %r gives %s, section "
+                                      "%r (%s) gives %s" % (
+                                          sec, short(ref[1:]), s2, h,
+                                          short(o4[1:]))))
+                        break
+            # ... of every read access, and the other ways to fill a
+            # ConfigurationDict: ConfigurationDict(section, data), **kwargs
+            if case.get("deep"):
+                fails += dict_access_check(sec.lower(), key, val, stored)
     return enc_obs(ref), fails, ref
+
+
+def dict_access_check(sec, key, val, stored):
+    from dclab.rtdc_dataset.config import ConfigurationDict
+    fails = []
+    lk = key.lower()
+    alts = [k for k in (key.upper(), key.title(), key.swapcase(), lk)]
+    with warnings.catch_warnings():
+        warnings.simplefilter("ignore")
+        try:
+            for how in ("init", "kwargs", "setdefault"):
+                if how == "init":
+                    d = ConfigurationDict(sec, {key: val})
+                elif how == "kwargs":
+                    d = ConfigurationDict(section=sec)
+                    d.update(**{key: val})
+                else:
+                    d = ConfigurationDict(section=sec)
+                    d[alts[0]] = val
+                    r = d.setdefault(alts[1], "other value")
+                    if not same_type_equal(r, stored):
+                        fails.append(("case", "setdefault(%r) returns %s, "
+                                      "stored %s" % (alts[1], short(r),
+                                                     short(stored))))
+                if list(d.keys()) != [lk]:
+                    fails.append(("routes", "%s: keys %s" % (how,
+                                                             list(d.keys()))))
+                    continue
+                if not same_type_equal(d[lk], stored):
+                    fails.append(("routes", "%s stores %s, assignment %s" % (
+                        how, short(d[lk]), short(stored))))
+                for k2 in alts:
+                    if k2 not in d or not same_type_equal(d[k2], stored) or \
+                            not same_type_equal(d.get(k2), stored):
+                        fails.append(("case", "%s: lookup with %r fails" % (
+                            how, k2)))
+                        break
+            d = ConfigurationDict(section=sec)
+            d[key] = val
+            r = d.pop(alts[0])
+            if not same_type_equal(r, stored) or len(d):
+                fails.append(("case", "pop(%r) gives %s, left %s" % (
+                    alts[0], short(r), list(d.keys()))))
+            d[key] = val
+            del d[alts[1]]
+            if len(d) or alts[2] in d:
+                fails.append(("case", "del [%r] leaves %s" % (
+                    alts[1], list(d.keys()))))
+        except Exception as e:
+            fails.append(("case", "dictionary access raises %r" % (e,)))
+    return fails
 
 
 def impl_route3(case, val):
@@ -549,6 +674,18 @@ def impl_route3(case, val):
 
 SAVE_LOAD_CONVS = ("str", "lcstr", "float", "fint", "fbool", "fintlist",
                    "fboolorfloat")
+
+
+def saveload_equal(a, b):
+    """same type; equal, floats within the precision of the .cfg text
+    ("%.12f": absolute error at most 5e-13)"""
+    if isinstance(a, str) and isinstance(b, str):
+        return str(a) == str(b)        # (np.str_ is a str)
+    if type(a) is not type(b):
+        return False
+    if isinstance(a, float):
+        return py_equal(a, b) or abs(a - b) <= 5e-13
+    return py_equal(a, b)
 
 
 def impl_route4(case, val, scratch, idx):
@@ -608,6 +745,8 @@ def impl_route4(case, val, scratch, idx):
     elif fname in SAVE_LOAD_CONVS and lk == lk2:
         claimed = not (fname == "fboolorfloat" and
                        not isinstance(stored, bool))
+    elif fname == "fnumber" and lk == lk2:
+        claimed = type(stored) is float   # ("1" is read back as 1.0)
     if claimed:
         if obs[0] == "exc":
             fails.append(("saveload", "stored %s; loading the saved file "
@@ -615,7 +754,7 @@ def impl_route4(case, val, scratch, idx):
         elif obs[1] is ABSENT:
             fails.append(("saveload", "stored %s; absent after save and load"
                           " (warnings %s)" % (short(stored), obs[2])))
-        elif not same_type_equal(stored, obs[1]):
+        elif not saveload_equal(stored, obs[1]):
             fails.append(("saveload", "stored %s; after save and load %s" % (
                 short(stored), short(obs[1]))))
     return enc_obs(obs), fails
@@ -681,8 +820,8 @@ def impl_route5(case, val):
     try:
         with warnings.catch_warnings():
             warnings.simplefilter("ignore")
-            j1 = c.as_dict()[sec][lk]
-            j2 = json.loads(c.tojson())[sec][lk]
+            j1 = c.as_dict()[sec.lower()][lk]
+            j2 = json.loads(c.tojson())[sec.lower()][lk]
             j3 = c.as_dict(pop_filtering=True)
     except Exception as e:
         def has_bytes(x):
@@ -747,61 +886,146 @@ def impl_route6(case, val):
     return ("multi", flats), fails
 
 
+def enc_items(its, wc):
+    its = sorted(its, key=lambda kv: kv[0])
+    flat = [1, len(wc)] + wc + [len(its)]
+    for k, v in its:
+        flat += [len(k)] + [ord(ch) for ch in k] + e_value(v)
+    return flat
+
+
 def impl_multi(case):
-    """several assignments to one section with update / the constructor,
-    observed through items() and tostring()"""
+    """Configuration level: several assignments to one section (any case of
+    the section name) with update / the constructor (how 0), or one item
+    assignment cfg[sec][key] = v (how 1); observed through the entries of
+    the section"""
     from dclab.rtdc_dataset.config import Configuration
     sec = case["sec"]
+    how = case.get("how", 0)
     items = [(k, build(v)) for k, v in case["items"]]
     fails = []
     with warnings.catch_warnings(record=True) as wl:
         warnings.simplefilter("always")
         try:
             c = Configuration()
-            if sec in c:
-                c[sec].clear()
-            c.update({sec: dict(items)})
+            c["filtering"].clear()
+            c._cfg.pop("filtering")
+            if how == 0:
+                c.update({sec: dict(items)})
+            else:
+                c[sec][items[0][0]] = items[0][1]
             its = c[sec].items() if sec in c else []
             wc = warn_codes(wl)
         except Exception as e:
             return e_exc(e), fails
-    flat = [1, len(wc)] + wc + [len(its)]
-    for k, v in its:
-        flat += [len(k)] + [ord(ch) for ch in k] + e_value(v)
+    flat = enc_items(its, wc)
     keys = [k for k, _ in its]
-    if keys != sorted(keys) or any(k != k.lower() for k in keys):
-        fails.append(("order", "items() keys %s" % keys))
+    if any(k != k.lower() for k in keys) or len(set(keys)) != len(keys):
+        fails.append(("case", "keys of the section: %s" % keys))
     if sorted(keys) != sorted(c[sec].keys()) or any(
             not same_type_equal(v, c[sec][k]) for k, v in its):
-        fails.append(("order", "items() differs from keys()/getitem"))
-    # tostring: sections and keys sorted, every key once
-    with warnings.catch_warnings():
-        warnings.simplefilter("ignore")
-        try:
-            lines = c.tostring().split("\n")
-        except Exception as e:
-            lines = None
-            fails.append(("order", "tostring raises %r" % (e,)))
-    if lines is not None:
-        secs = [ln[1:-1] for ln in lines if ln.startswith("[")
-                and ln.endswith("]") and "=" not in ln]
-        if secs != sorted(c.keys()):
-            fails.append(("order", "tostring sections %s" % secs))
-    if sec != "filtering":
+        fails.append(("routes", "items() differs from keys()/getitem"))
+    if [s2 for s2 in c.keys() if s2 != s2.lower()]:
+        fails.append(("case", "sections %s" % list(c.keys())))
+    if how == 0 and sec.lower() != "filtering":
         with warnings.catch_warnings():
             warnings.simplefilter("ignore")
             try:
                 c2 = Configuration(cfg={sec: dict(items)})
                 its2 = c2[sec].items() if sec in c2 else []
-                if [k for k, _ in its2] != keys or any(
-                        not same_type_equal(a[1], b[1])
-                        for a, b in zip(its, its2)):
+                if sorted(k for k, _ in its2) != sorted(keys) or any(
+                        not same_type_equal(dict(its)[k], v)
+                        for k, v in its2):
                     fails.append(("routes", "constructor gives %s, update "
                                   "%s" % (short(its2), short(its))))
             except Exception as e:
                 fails.append(("routes", "constructor raises %r, update does "
                               "not" % (e,)))
     return flat, fails
+
+
+def impl_file(case, scratch, idx):
+    """a whole hand-written configuration file (several sections, repeated
+    keys, comments, invalid lines), loaded with Configuration(files=[...])
+    semantics; observed through the entries of one section"""
+    from dclab.rtdc_dataset.config import Configuration, load_from_file
+    sec = case["sec"]
+    path = os.path.join(scratch, "file_%d.cfg" % idx)
+    with open(path, "w", encoding="utf-8") as fd:
+        fd.write("\n".join(case["lines"]) + "\n")
+    fails = []
+    with warnings.catch_warnings(record=True) as wl:
+        warnings.simplefilter("always")
+        try:
+            c = Configuration()
+            c["filtering"].clear()
+            c._cfg.pop("filtering")
+            c.update(load_from_file(path))
+            its = c[sec].items() if sec in c else []
+            flat = enc_items(its, warn_codes(wl))
+        except Exception as e:
+            flat = e_exc(e)
+            its = None
+    if its is not None and sec.lower() != "filtering":
+        with warnings.catch_warnings():
+            warnings.simplefilter("ignore")
+            try:
+                c2 = Configuration(files=[path])
+                its2 = c2[sec].items() if sec in c2 else []
+                if sorted(k for k, _ in its2) != sorted(k for k, _ in its) \
+                        or any(not same_type_equal(dict(its)[k], v)
+                               for k, v in its2):
+                    fails.append(("routes", "Configuration(files=) gives %s,"
+                                  " update(load_from_file) %s" % (
+                                      short(its2), short(its))))
+            except Exception as e:
+                fails.append(("routes", "Configuration(files=) raises %r" %
+                              (e,)))
+    os.remove(path)
+    return flat, fails
+
+
+def impl_foreign(case, val, scratch, idx):
+    """an attribute written with h5py directly (as acquisition software
+    does, not canonicalised by RTDCWriter), read with parse_config; must
+    agree with assigning the same value"""
+    import h5py
+    from dclab.rtdc_dataset.fmt_hdf5 import RTDC_HDF5
+    sec, key = case["sec"], case["key"]
+    lk = key.lower()
+    path = os.path.join(scratch, "fo_%d.rtdc" % idx)
+    fails = []
+    try:
+        with h5py.File(path, "w") as h5:
+            h5.attrs["%s:%s" % (sec, key)] = val
+            back = h5.attrs["%s:%s" % (sec, key)]
+    except Exception:
+        if os.path.exists(path):
+            os.remove(path)
+        return [99], fails        # h5py cannot hold the value
+    if isinstance(back, bytes):
+        back = back.decode("utf-8")
+    with warnings.catch_warnings(record=True) as wl:
+        warnings.simplefilter("always")
+        try:
+            c = RTDC_HDF5.parse_config(path)
+            got = c[sec].get(lk, ABSENT) if sec in c else ABSENT
+            obs = ("ok", got, warn_codes(wl))
+        except Exception as e:
+            obs = ("exc", e, warn_codes(wl))
+    os.remove(path)
+    ref = _assign(sec, key, back, "item" if section_known(sec) else "update")
+    if not obs_equal(ref, obs):
+        fails.append(("routes", "attribute %s: parse_config gives %s, "
+                      "assignment gives %s" % (short(back), short(obs[1:]),
+                                               short(ref[1:3]))))
+    elif obs[0] == "ok" and obs[1] is not ABSENT and has_converter(sec, lk):
+        from dclab import definitions as dfn
+        typ = dfn.get_config_value_type(sec, lk)
+        if typ is not None and not isinstance(obs[1], typ):
+            fails.append(("type", "attribute %s read as %s of type %s" % (
+                short(back), short(obs[1]), type(obs[1]).__name__)))
+    return enc_obs(obs), fails
 
 
 def impl_route1(case, scratch, idx):
@@ -891,6 +1115,9 @@ def impl_route2(case, val, scratch, idx):
     # oracle: compare with the value normalised by a Configuration
     ref = _assign(sec, key, val, "item" if section_known(sec) else "update")
     conv_key = has_converter(sec, lk)
+    if isinstance(ref[1], int) and not isinstance(ref[1], bool) and \
+            not -2 ** 63 <= ref[1] < 2 ** 63:
+        ref = ("ok", ABSENT, [], False)     # HDF5 has 64 bit integers
     if ref[0] == "ok" and ref[1] is not ABSENT and not ref[2] and \
             (sec == "user" or key == lk) and \
             (conv_key or (wrote and representable(ref[1]))):
@@ -1010,6 +1237,21 @@ def fixed_values():
              ["list2", [[I(1)], []]],
              ["tuple2", [[I(1), I(2)], [F(4), F(36)]]],
              ["list2", [[I(0), I(0)]]]]
+    # outside the model (oracle only): floats that are not multiples of 1/8,
+    # extreme magnitudes, integers beyond 2**53, other numpy scalar types
+    for r in ["0.1", "0.34", "0.3333333333333333", "1e-13", "1e+20",
+              "2.5e-07", "123456.789", "-0.04", "1e-300"]:
+        vals.append(["xfloat", r])
+        vals.append(S(r))
+    vals += [["xint", 2 ** 53 + 1], ["xint", -(2 ** 62) - 3],
+             ["xnp", "int32", "5"], ["xnp", "uint8", "3"],
+             ["xnp", "uint64", "7"], ["xnp", "int16", "-2"],
+             ["xnp", "float16", "1.5"], ["xnp", "str_", "Abc"],
+             ["xnp", "str_", "0.5"], ["xnp", "bytes_", "Abc"],
+             ["list", [["xfloat", "0.1"], ["xfloat", "0.34"]]],
+             ["tuple", [["xfloat", "0.3333333333333333"], I(2)]],
+             ["list", [["xint", 2 ** 53 + 1], I(0)]],
+             ["list2", [[["xfloat", "0.1"], I(1)], [F(4), ["xfloat", "1e-13"]]]]]
     vals += [["arr0", "i", 24], ["arr0", "f", 20], ["arr0", "i", 0],
              ["arr0", "f", 0], ["arr0", "b", 8], ["arr0", "f", "nan"],
              ["arr1", "i", [8, 16]], ["arr1", "f", [12, 20]],
@@ -1134,6 +1376,13 @@ def all_keys(rng):
              ("Setup" if False else "setup", "Channel Width", "table"),
              ("imaging", "PIXEL SIZE", "table"),
              ("qpi", "Scale To Filter", "table")]
+    keys += [("Setup", "Channel Width", "table"),
+             ("IMAGING", "pixel size", "table"),
+             ("Online_Filter", "Deform Min", "pattern"),
+             ("FILTERING", "Polygon Filters", "table"),
+             ("User", "My Key", "user"), ("Peter", "x", "bad"),
+             ("online_filter", "deform xmin", "pattern"),
+             ("online_filter", "area_um climax", "pattern")]
     for k in ["a", "My Key", "a:b", "x y z", "deform min", "channel width",
               "k%d" % rng.randint(0, 99), "A1:B2:c3", "with.dot-and_more"]:
         keys.append(("user", k, "user"))
@@ -1215,7 +1464,11 @@ def run_one(case, scratch, idx):
         return [once, twice], fails
     if route == "multi":
         return impl_multi(case)
-    if route == "carry":      # replay of one entry: a single write/read hop
+    if route == "file":
+        return impl_file(case, scratch, idx)
+    if route == "foreign":
+        return impl_foreign(case, build(case["val"]), scratch, idx)
+    if route in ("carry", "carry2"):      # replay of one entry: a single write/read hop
         return impl_route2(case, build(case["val"]), scratch, idx)
     val = build(case["val"])
     if route == 0:
@@ -1258,10 +1511,12 @@ def make_cases(run):
                                 "__name__", "?"))
         full = run.thorough or kc not in seen_cls
         seen_cls.add(kc)
-        for v in (fixed if full else rng.sample(fixed, 30)):
-            cases.append(dict(route=0, sec=sec, key=key, val=v, cls=cls))
-        for v in (rand_vals if run.thorough else rng.sample(rand_vals, 6)):
-            cases.append(dict(route=0, sec=sec, key=key, val=v, cls=cls))
+        for v in (fixed if full else rng.sample(fixed, 15)):
+            cases.append(dict(route=0, sec=sec, key=key, val=v, cls=cls,
+                              deep=int(full or rng.random() < 0.1)))
+        for v in (rand_vals if run.thorough else rng.sample(rand_vals, 4)):
+            cases.append(dict(route=0, sec=sec, key=key, val=v, cls=cls,
+                              deep=int(rng.random() < 0.1)))
     # route 1 (file): all keys x all str values (thorough) / a sample
     strs = [v for v in fixed + rand_vals if v[0] == "str"
             and val_ok_for_file(v[1])]
@@ -1279,17 +1534,17 @@ def make_cases(run):
           if c != "bad" and key_ok_for_file(k) and k
           and (v[0] != "str" or val_ok_for_file(v[1]))]
     if not run.thorough:
-        r1 = rng.sample(r1, min(len(r1), 1200))
+        r1 = rng.sample(r1, min(len(r1), 800))
         r2 = rng.sample(r2, min(len(r2), 1000))
         r3 = rng.sample(r3, min(len(r3), 800))
         r4s = [x for x in r4 if x[3][0] == "str"]
-        r4 = rng.sample(r4s, min(len(r4s), 900)) + \
-            rng.sample(r4, min(len(r4), 500))
+        r4 = rng.sample(r4s, min(len(r4s), 600)) + \
+            rng.sample(r4, min(len(r4), 300))
     else:
         r1 = rng.sample(r1, min(len(r1), 12000))
         r2 = rng.sample(r2, min(len(r2), 12000))
         r3 = rng.sample(r3, min(len(r3), 12000))
-        r4 = rng.sample(r4, min(len(r4), 15000))
+        r4 = rng.sample(r4, min(len(r4), 10000))
     r5 = rng.sample(r3, min(len(r3), 6000 if run.thorough else 500))
     r6 = rng.sample(r3, min(len(r3), 6000 if run.thorough else 500))
     good = [(s, k, c) for (s, k, c) in keys if key_ok_for_model(s, k)]
@@ -1308,7 +1563,52 @@ def make_cases(run):
             if k not in seen:
                 seen.add(k)
                 its.append([k, rng.choice(fixed + rand_vals)])
-        cases.append(dict(route="multi", sec=sec, items=its))
+        sec = rng.choice([sec, sec, sec.upper(), sec.title()])
+        if rng.random() < 0.25:
+            cases.append(dict(route="multi", sec=sec, how=1, items=its[:1]))
+        else:
+            cases.append(dict(route="multi", sec=sec, how=0, items=its))
+    # whole hand-written files
+    ftexts = [v[1] for v in strs if v[1].strip()]
+    fkeys = {s: [k for k in ks if key_ok_for_file(k) and k
+                 and not k.startswith("[")] for s, ks in by_sec.items()}
+    fkeys = {s: ks for s, ks in fkeys.items() if ks}
+    for _ in range(3000 if run.thorough else 300):
+        secs = rng.sample(sorted(fkeys), rng.randint(1, 3))
+        lines = []
+        if rng.random() < 0.04:
+            lines.append("stray = 1")
+        for rep in range(rng.randint(1, 2)):
+            for s in secs:
+                if rep and rng.random() < 0.5:
+                    continue
+                lines.append("[%s]" % rng.choice([s, s, s.upper(),
+                                                  s.title()]))
+                for _k in range(rng.randint(0, 4)):
+                    r = rng.random()
+                    if r < 0.1:
+                        lines.append(rng.choice(["# a comment = 1", "",
+                                                 "   ", "no equal sign",
+                                                 "#[setup]"]))
+                    else:
+                        k = rng.choice(fkeys[s])
+                        k = rng.choice([k, k, k.upper(), k.title()])
+                        lines.append("%s%s=%s%s" % (
+                            k, rng.choice([" ", "", "  "]),
+                            rng.choice([" ", "", "  "]),
+                            rng.choice(ftexts)))
+        cases.append(dict(route="file", sec=rng.choice(
+            [secs[0], secs[0].upper()]), lines=lines))
+    # attributes written with h5py directly
+    fvals = [v for v in fixed + rand_vals
+             if v[0] in ("npint", "npf64", "npf32", "npbool", "str", "arr1",
+                         "arr2", "xnp")]
+    rf = [(s, k, c, v) for (s, k, c) in keys for v in fvals
+          if (s in dfn.CFG_METADATA or s == "user") and k.strip()
+          and ":" not in k[:1]]
+    rf = rng.sample(rf, min(len(rf), 6000 if run.thorough else 300))
+    for s, k, c, v in rf:
+        cases.append(dict(route="foreign", sec=s, key=k, val=v, cls=c))
     for route, lst in ((1, r1), (2, r2), (3, r3), (4, r4), (5, r5), (6, r6)):
         for s, k, c, v in lst:
             cases.append(dict(route=route, sec=s, key=k, val=v, cls=c))
@@ -1328,7 +1628,7 @@ def run(run):
             except Exception as e:   # harness problem, not a verdict
                 flat, fails = [-2], [("harness", "crashed: %r" % (e,))]
             impl[idx] = flat
-            nontrivial = c["route"] in ("conv", "multi") or (
+            nontrivial = c["route"] in ("conv", "multi", "file") or (
                 c.get("cls") != "bad" and c["val"] not in (["str", ""],
                                                            ["none"],
                                                            ["bytes", ""]))
@@ -1350,15 +1650,22 @@ def run(run):
     # spawned (a forked child briefly shares the file locks)
     run_impl([(i, c) for i, c in enumerate(cases) if c["route"] == 2])
     carry_chains(run, cases, impl)
+    tdms_carry(run)
     # the model: keys and values are shared definitions, a case is a triple
     # of indices (keeps the generated Coq files small)
     conv_cases = [(i, c) for i, c in enumerate(cases) if c["route"] == "conv"]
+    conv_cases = [(i, c) for (i, c) in conv_cases if model_ok(c["val"])]
     cfg_cases = [(i, c) for i, c in enumerate(cases)
-                 if c["route"] not in ("conv", "multi")
-                 and key_ok_for_model(c["sec"], c["key"])]
+                 if c["route"] not in ("conv", "multi", "file")
+                 and key_ok_for_model(c["sec"], c["key"])
+                 and model_ok(c["val"])]
     multi_cases = [(i, c) for i, c in enumerate(cases)
-                   if c["route"] == "multi"]
-    model_route = {"carry": 2, 6: 3}
+                   if c["route"] == "multi"
+                   and all(model_ok(v) for _, v in c["items"])]
+    file_cases = [(i, c) for i, c in enumerate(cases)
+                  if c["route"] == "file" and all(
+                      key_ok_for_model("", ln) for ln in c["lines"])]
+    model_route = {"carry": 2, "carry2": 7, 6: 3, "foreign": 0}
     vidx, vlist, kidx, klist = {}, [], {}, []
 
     def vi(v):
@@ -1374,44 +1681,51 @@ def run(run):
             kidx[k] = len(klist)
             klist.append("(%s, %s)" % (r_str(sec), r_str(key)))
         return kidx[k]
-    r1 = ["(%d, %d%%nat)" % (c["conv"], vi(c["val"])) for _, c in conv_cases]
-    r2 = ["(%d, %d%%nat, %d%%nat)" % (
+    r1 = ["(%d, %d)" % (c["conv"], vi(c["val"])) for _, c in conv_cases]
+    r2 = ["(%d, %d, %d)" % (
         model_route.get(c["route"], c["route"]), ki(c["sec"], c["key"]),
         vi(c["val"])) for _, c in cfg_cases]
-    r3 = ["(%s, %s)" % (r_str(c["sec"]), common.clist(
+    r4 = ["(%s, %s)" % (r_str(c["sec"]), common.clist(
+        [r_str(ln) for ln in c["lines"]])) for _, c in file_cases]
+    r3 = ["(%d, %s, %s)" % (c.get("how", 0), r_str(c["sec"]), common.clist(
         ["(%s, %s)" % (r_str(k), r_value(v)) for k, v in c["items"]]))
         for _, c in multi_cases]
     header = (HEADER + "Open Scope Z_scope.\n"
               "Definition K_ : list (list Z * list Z) := [\n%s].\n"
               "Definition V_ : list value := [\n%s].\n"
-              "Definition cfg_ (c : Z * nat * nat) : list Z :=\n"
-              "  let '(r, k, v) := c in let kv := nth k K_ ([], []) in\n"
+              "Definition cfg_ (c : Z * Z * Z) : list Z :=\n"
+              "  let '(r, k, v) := c in\n"
+              "  let kv := nth (Z.to_nat k) K_ ([], []) in\n"
               "  run_case table feats meta_sections\n"
-              "           (r, fst kv, snd kv, nth v V_ (VS SNone)).\n"
-              "Definition conv_ (c : Z * nat) : list (list Z) :=\n"
-              "  let (n, v) := c in let x := nth v V_ (VS SNone) in\n"
+              "           (r, fst kv, snd kv, nth (Z.to_nat v) V_ (VS SNone)).\n"
+              "Definition conv_ (c : Z * Z) : list (list Z) :=\n"
+              "  let (n, v) := c in\n"
+              "  let x := nth (Z.to_nat v) V_ (VS SNone) in\n"
               "  [conv_case (n, x); conv_twice_case (n, x)].\n"
               % (";\n".join(klist), ";\n".join(vlist)))
     # the model is evaluated in the background while the implementation runs
     import concurrent.futures
-    pool = concurrent.futures.ThreadPoolExecutor(max_workers=3)
+    pool = concurrent.futures.ThreadPoolExecutor(max_workers=4)
     f1 = pool.submit(common.coq_map, run.scratch, "c11conv", header, "conv_",
                      r1, 600)
     f2 = pool.submit(common.coq_map, run.scratch, "c11cfg", header, "cfg_",
                      r2, 1200)
     f3 = pool.submit(common.coq_map, run.scratch, "c11multi", HEADER,
-                     "multi_case table feats", r3, 150)
+                     "cfg_case table feats sections", r3, 150)
+    f4 = pool.submit(common.coq_map, run.scratch, "c11file", HEADER,
+                     "file_case table feats", r4, 150)
     run_impl([(i, c) for i, c in enumerate(cases)
-              if c["route"] not in (2, "carry")])
+              if c["route"] not in (2, "carry", "carry2")])
     try:
         m1 = f1.result()
         m2 = f2.result()
         m3 = f3.result()
+        m4 = f4.result()
     finally:
         pool.shutdown(wait=True)
     unmod = 0
     for (i, c), m in list(zip(conv_cases, m1)) + list(zip(cfg_cases, m2)) \
-            + list(zip(multi_cases, m3)):
+            + list(zip(multi_cases, m3)) + list(zip(file_cases, m4)):
         got = impl[i]
         if c["route"] == "conv":
             pairs = list(zip(m, got))
@@ -1419,12 +1733,15 @@ def run(run):
             pairs = [(m, g) for g in got[1]]
         else:
             pairs = [(m, got)]
+        kind = ("res" if c["route"] == "conv" else
+                "items" if c["route"] in ("multi", "file") else
+                "nf" if c["route"] == 5 else "obs")
         for mm, gg in pairs:
             if mm == [99]:
                 unmod += 1
                 continue
             run.corr_checked += 1
-            if mm != gg:
+            if norm_flat(mm, kind) != norm_flat(gg, kind):
                 run.mismatch(c, mm, gg)
     run.extra["unmodelled_cases_skipped"] = unmod
 
@@ -1526,7 +1843,10 @@ def random_meta_spec(rng):
 HOP_EXCLUDED = {
     "join": {("experiment", "run index")},
     "split": {("experiment", "sample"), ("experiment", "run identifier")},
+    "export_filtered": {("experiment", "run identifier")},
+    "append": {("setup", "medium"), ("user", "zero")},
 }
+FIRST_HOPS = ("parse_config", "new_dataset", "hierarchy", "append")
 
 
 def carry_chains(run, cases, impl):
@@ -1540,10 +1860,10 @@ def carry_chains(run, cases, impl):
     import numpy as np
     import dclab
     from dclab import RTDCWriter, definitions as dfn
-    from dclab.cli import compress, repack, join, split
+    from dclab.cli import compress, repack, join, split, condense
     from dclab.rtdc_dataset.config import Configuration
     from dclab.rtdc_dataset.fmt_hdf5 import RTDC_HDF5
-    n = 40 if run.thorough else 12
+    n = 30 if run.thorough else 8
     if globals().get("_REPLAY_ONE"):
         n = 1
     for ci in range(n):
@@ -1551,6 +1871,7 @@ def carry_chains(run, cases, impl):
         meta = {s: {k: build(v) for k, v in spec[s].items()} for s in spec}
         entries = [(s, k) for s in sorted(spec) for k in sorted(spec[s])]
         flats = {e: [] for e in entries}
+        flats2 = {e: [] for e in entries}
         hops_done = []
         fails = []
         d = os.path.join(run.scratch, "carry%d" % ci)
@@ -1564,7 +1885,8 @@ def carry_chains(run, cases, impl):
                 if (s, lk) in excl:
                     continue
                 got = cfg[s].get(lk, ABSENT) if s in cfg else ABSENT
-                flats[(s, k)].append(enc_obs(("ok", got, [])))
+                (flats if hop in FIRST_HOPS else flats2)[(s, k)].append(
+                    enc_obs(("ok", got, [])))
                 want = ref[s].get(lk, ABSENT) if s in ref else ABSENT
                 if want is ABSENT:
                     continue
@@ -1588,10 +1910,21 @@ def carry_chains(run, cases, impl):
                         fails.append("%s: %s:%s appeared" % (hop, s, k2))
 
         def write(path, m, tshift=0):
+            import copy
             m2 = {s: dict(m[s]) for s in m}
             m2.setdefault("setup", {})["software version"] = "verif 1"
+            m2["fmt_tdms"] = {"video frame offset": 1}
+            before = copy.deepcopy(m2)
             with RTDCWriter(path, mode="reset") as hw:
                 hw.store_metadata(m2)
+                # the caller's dictionary is left alone
+                if sorted(m2) != sorted(before) or any(
+                        sorted(m2[s_]) != sorted(before[s_]) or any(
+                            not same_type_equal(m2[s_][k_], before[s_][k_])
+                            for k_ in m2[s_]) for s_ in m2):
+                    fails.append("store_metadata changed its argument")
+                if any(a.startswith("fmt_tdms") for a in hw.h5file.attrs):
+                    fails.append("store_metadata wrote the fmt_tdms section")
                 hw.store_feature("deform", np.linspace(.01, .02, 7) + tshift)
                 hw.store_feature("area_um", np.linspace(20, 90, 7))
 
@@ -1610,12 +1943,47 @@ def carry_chains(run, cases, impl):
                 mb["user"] = dict(mb["user"], zero=1)
                 write(pb, mb, 0.5)
                 observe("parse_config", RTDC_HDF5.parse_config(pa))
+                # a second store_metadata call on the existing file replaces
+                # exactly the entries it is given
+                import shutil
+                pa2 = os.path.join(d, "a2.rtdc")
+                shutil.copy(pa, pa2)
+                with RTDCWriter(pa2, mode="append") as hw:
+                    hw.store_metadata({"setup": {"medium": b"Other"},
+                                       "user": {"zero": "9", "added": [1, 2]}})
+                c2 = RTDC_HDF5.parse_config(pa2)
+                known.add(("user", "added"))
+                observe("append", c2)
+                known.discard(("user", "added"))
+                if c2["setup"].get("medium") != "Other" or \
+                        c2["user"].get("zero") != "9" or \
+                        not py_equal(c2["user"].get("added"), [1, 2]):
+                    fails.append("append: second store_metadata gives %s %s" %
+                                 (dict(c2["setup"]), dict(c2["user"])))
                 p1 = os.path.join(d, "export.rtdc")
+                pf = os.path.join(d, "export_filtered.rtdc")
+                pc = os.path.join(d, "export_child.rtdc")
+                pd = os.path.join(d, "export_dict.rtdc")
                 with dclab.new_dataset(pa) as ds:
                     observe("new_dataset", ds.config)
-                    hierarchy_check(ds, observe, fails)
                     ds.export.hdf5(p1, features=["deform", "area_um"],
                                    filtered=False)
+                    ds.export.hdf5(pf, features=["deform", "area_um"],
+                                   filtered=True)
+                    hierarchy_check(ds, observe, fails)
+                    child = dclab.new_dataset(ds)
+                    child.export.hdf5(pc, features=["deform", "area_um"],
+                                      filtered=False)
+                dsd = dclab.new_dataset({"deform": np.linspace(.01, .02, 7),
+                                         "area_um": np.linspace(20, 90, 7)})
+                dsd.config.update(meta)
+                dsd.config["setup"]["software version"] = "verif 1"
+                dsd.export.hdf5(pd, features=["deform", "area_um"],
+                                filtered=False)
+                for hop, pp in (("export_filtered", pf),
+                                ("export_child", pc), ("export_dict", pd)):
+                    with dclab.new_dataset(pp) as dsx:
+                        observe(hop, dsx.config)
                 with dclab.new_dataset(p1) as ds1:
                     observe("export", ds1.config)
                 p2 = os.path.join(d, "compressed.rtdc")
@@ -1626,6 +1994,10 @@ def carry_chains(run, cases, impl):
                 repack(path_in=p2, path_out=p3)
                 with dclab.new_dataset(p3) as ds3:
                     observe("repack", ds3.config)
+                p5 = os.path.join(d, "condensed.rtdc")
+                condense(path_in=p3, path_out=p5)
+                with dclab.new_dataset(p5) as ds5:
+                    observe("condense", ds5.config)
                 p4 = os.path.join(d, "joined.rtdc")
                 ins = [p3, pb] if run.rng.random() < 0.5 else [pb, p3]
                 join(paths_in=ins, path_out=p4)
@@ -1662,6 +2034,90 @@ def carry_chains(run, cases, impl):
             impl.append(("multi", flats[(s, k)]))
             run.record_case(cases[-1], True, sample=False)
             run.count("route:carry")
+            if flats2[(s, k)]:
+                # export and the tools: against two modelled hops
+                cases.append(dict(route="carry2", sec=s, key=k,
+                                  val=spec[s][k], cls="carry",
+                                  hops=len(flats2[(s, k)])))
+                impl.append(("multi", flats2[(s, k)]))
+                run.record_case(cases[-1], True, sample=False)
+                run.count("route:carry2")
+
+
+def tdms_carry(run):
+    """dclab-tdms2rtdc: the configuration read from a .tdms measurement
+    (para.ini/camera.ini through load_from_file, user entries added) equals
+    the configuration of the converted .rtdc file"""
+    import contextlib
+    import io
+    import zipfile
+    import dclab
+    from dclab import definitions as dfn
+    from dclab.cli import tdms2rtdc
+    names = ["fmt-tdms_minimal_2016.zip",
+             "fmt-tdms_shapein-2.0.1-no-image_2017.zip",
+             "fmt-tdms_fl-image_2016.zip", "fmt-tdms_2fl-no-image_2017.zip"]
+    if not run.thorough:
+        names = [run.rng.choice(names)]
+    for nm in names:
+        src = os.path.join(common.REPO, "tests", "data", nm)
+        if not os.path.exists(src):
+            run.notes.append("tdms fixture missing: " + nm)
+            continue
+        d = os.path.join(run.scratch, "tdms_" + nm[:-4])
+        case = dict(route="dataset", meta={"tdms": nm}, hops=["tdms2rtdc"])
+        fails = []
+        try:
+            with warnings.catch_warnings(), \
+                    contextlib.redirect_stdout(io.StringIO()):
+                warnings.simplefilter("ignore")
+                zipfile.ZipFile(src).extractall(d)
+                tdms = [os.path.join(r_, f) for r_, _, fs in os.walk(d)
+                        for f in fs if f.endswith(".tdms")
+                        and not f.endswith("_traces.tdms")]
+                po = os.path.join(d, "out.rtdc")
+                import pathlib
+                tdms2rtdc(path_tdms=pathlib.Path(tdms[0]),
+                          path_rtdc=pathlib.Path(po))
+                from dclab.rtdc_dataset.fmt_hdf5 import RTDC_HDF5
+
+                class DO:      # (the untagged sandbox build cannot re-open
+                    config = RTDC_HDF5.parse_config(po)   # its own files)
+                do = DO()
+                with dclab.new_dataset(tdms[0]) as ds:
+                    for sec in list(dfn.CFG_METADATA) + ["user"]:
+                        if sec == "fmt_tdms" or sec not in ds.config:
+                            continue
+                        for k, want in ds.config[sec].items():
+                            if (sec, k) in RECTIFIED:
+                                continue
+                            got = do.config[sec].get(k, ABSENT) \
+                                if sec in do.config else ABSENT
+                            if got is ABSENT:
+                                fails.append("%s:%s lost" % (sec, k))
+                            elif not py_equal(want, got):
+                                fails.append("%s:%s %s -> %s" % (
+                                    sec, k, short(want), short(got)))
+                            else:
+                                typ = dfn.get_config_value_type(sec, k)
+                                if typ is not None and has_converter(sec, k) \
+                                        and not isinstance(got, typ):
+                                    fails.append("%s:%s type %s" % (
+                                        sec, k, type(got).__name__))
+                        for k in (do.config[sec] if sec in do.config else []):
+                            if k not in ds.config[sec] and \
+                                    (sec, k) not in RECTIFIED and \
+                                    (sec, k) != ("experiment",
+                                                 "run identifier"):
+                                fails.append("%s:%s appeared" % (sec, k))
+        except BaseException as e:
+            fails.append("raised %r" % (e,))
+        run.record_case(case, True, sample=False)
+        run.count("route:tdms2rtdc")
+        if fails:
+            run.count("oracle-fail:carry")
+            run.oracle_failure(case, "carry: tdms2rtdc %s: %s" % (
+                nm, "; ".join(fails[:4])), None)
 
 
 def hierarchy_check(ds, observe, fails):
@@ -1678,6 +2134,8 @@ def hierarchy_check(ds, observe, fails):
     try:
         _hierarchy_check(ds, observe, fails, pf)
     finally:
+        ds.config["filtering"]["polygon filters"] = []
+        ds.apply_filter()
         dclab.PolygonFilter.remove(pf.unique_id)
 
 
